@@ -184,10 +184,178 @@ theorem inclFinish_RK {k : Nat} (s : St) (r : Res) (hr : RK (k+1) r) :
       · exact (write_keeps ({ s with c := { r.st.c with incD := r.st.c.incD - 1 } } : St) r.st.w.out).trans hd
   · exact RK.of (write_ROK _ _ hr.2.1) (write_keeps _ _) ⟨hr.2.1, hd⟩
 
+/-! ### Counter loops that step towards their limit -/
+
+theorem dist_step (co so : Op) (v lim : Int) (m : Nat) (hso : (so == .inc || so == .dec) = true)
+    (ha : loopAllows co v lim = some true) (hd : dist co so v lim = some m) :
+    ∃ m', dist co so (stepVal so v) lim = some m' ∧ m' < m := by
+  unfold dist at hd ⊢
+  unfold stepVal
+  unfold loopAllows at ha
+  cases so <;> simp at hso <;> cases co <;> simp at ha hd ⊢ <;> (try omega)
+  · subst ha; simp at hd; subst hd; have : ¬ (v + 1 = v) := by omega
+    simp [this]
+  · exact ⟨(lim - (v + 1)).toNat, ⟨by omega, rfl⟩, by omega⟩
+  · subst ha; simp at hd; subst hd; have : ¬ (v - 1 = v) := by omega
+    simp [this]
+  · exact ⟨(v - 1 - lim).toNat, ⟨by omega, rfl⟩, by omega⟩
+
+
+/-- **A counter loop that steps towards its limit does not run out of its iteration budget**: with `dist = some m` and a
+    budget above `m`, for ANY body that is good at depth `k`, the iteration part ends without `outOfFuel` in `ctx.Err`. -/
+theorem cloopLoop_SK {k : Nat} (run : St → Res) (hrun : ∀ s, SK k s → RK k (run s)) (ls : CLoopSpec) :
+    ∀ (f : Nat) (v lim : Int) (n : Nat) (s : St) (m : Nat), dist ls.condOp ls.cntOp v lim = some m → m < f → SK k s →
+      SK k (cloopLoop run ls f v lim n s).st := by
+  intro f
+  induction f with
+  | zero => intro v lim n s m _ h; omega
+  | succ f ih =>
+    intro v lim n s m hd hm hs
+    rw [cloopLoop]
+    cases hla : loopAllows ls.condOp v lim with
+    | none => exact ⟨by simp [OK], hs.2⟩
+    | some b =>
+      cases b with
+      | false => exact ⟨by simpa using hs.1, hs.2⟩
+      | true =>
+        simp only
+        have h1 : SK k ({ s with c := s.c.setStatic ls.cnt (.int v) } : St) := ⟨by simpa using hs.1, hs.2⟩
+        have hsw := sepWrite_RK n ls.sep _ h1
+        generalize sepWrite n ls.sep { s with c := s.c.setStatic ls.cnt (.int v) } = rs at hsw
+        cases hre : rs.err with
+        | some e =>
+          simp only
+          refine ⟨?_, hsw.2.2⟩
+          show OK (some e)
+          rw [← hre]; exact hsw.1
+        | none =>
+          simp only
+          have h2 : SK k (clrErrIf (n > 0 && !ls.sep.isEmpty) rs.st) := by
+            unfold clrErrIf
+            split
+            · exact ⟨by simp, hsw.2.2⟩
+            · exact hsw.sk
+          generalize clrErrIf (n > 0 && !ls.sep.isEmpty) rs.st = rs1 at h2
+          have h3 : SK k ({ rs1 with c := { rs1.c with chQB := true } } : St) := ⟨h2.1, h2.2⟩
+          have hb := hrun _ h3
+          generalize run { rs1 with c := { rs1.c with chQB := true } } = rb0 at hb
+          have hb' : RK k ({ rb0 with st := { rb0.st with c := { rb0.st.c with chQB := rs1.c.chQB } } } : Res) := ⟨hb.1, hb.2.1, hb.2.2⟩
+          have hio := iterAfterBody_SK _ hb'
+          by_cases hop : (ls.cntOp == .inc || ls.cntOp == .dec) = true
+          · simp only [hop, if_true]
+            generalize iterAfterBody ({ rb0 with st := { rb0.st with c := { rb0.st.c with chQB := rs1.c.chQB } } } : Res) = io at hio
+            cases io with
+            | abort st => exact hio
+            | stop st => exact ⟨by simp, hio.2⟩
+            | next st =>
+              obtain ⟨m', hd', hlt⟩ := dist_step ls.condOp ls.cntOp v lim m hop hla hd
+              exact ih _ _ _ _ m' hd' (by omega) ⟨by simp, hio.2⟩
+          · simp only [hop, Bool.false_eq_true, if_false]
+            generalize iterAfterBody ({ rb0 with st := { rb0.st with c := { rb0.st.c with chQB := rs1.c.chQB } } } : Res) = io at hio
+            cases io with
+            | abort st => exact hio
+            | stop st => exact ⟨by simp [OK], hb.2.2⟩
+            | next st => exact ⟨by simp [OK], hb.2.2⟩
+
+
+theorem textBound_SKc {k : Nat} (sb : Bytes) (c : Ctx) (h : OK c.err ∧ c.incD = k) :
+    OK (textBound sb c).2.err ∧ (textBound sb c).2.incD = k := by
+  unfold textBound
+  split
+  · exact h
+  · split
+    · exact h
+    · exact ⟨by simp [OK], h.2⟩
+
+theorem cloopRange_SKc {k : Nat} (c : Ctx) (st : Bool) (b : Bytes) (h : OK c.err ∧ c.incD = k) :
+    OK (cloopRange c st b).2.err ∧ (cloopRange c st b).2.incD = k := by
+  unfold cloopRange
+  split
+  · split
+    · exact ⟨by simp, h.2⟩
+    · exact ⟨by simp [OK], h.2⟩
+  · simp only
+    have hg : OK (c.get b).2.err ∧ (c.get b).2.incD = k := ⟨get_clean _ _, h.2⟩
+    split
+    · exact hg
+    · split
+      · exact hg
+      · exact hg
+      · exact textBound_SKc _ _ hg
+      · exact textBound_SKc _ _ hg
+      · exact ⟨by simp [OK], hg.2⟩
+
+theorem loopBounds_SKc {k : Nat} (c : Ctx) (ls : CLoopSpec) (h : OK c.err ∧ c.incD = k) :
+    OK (loopBounds c ls).1.err ∧ (loopBounds c ls).1.incD = k := by
+  unfold loopBounds
+  have h1 := cloopRange_SKc c ls.cntStatic ls.cntInit h
+  split
+  · exact h1
+  · simp only
+    have h2 := cloopRange_SKc (cloopRange c ls.cntStatic ls.cntInit).2 ls.limStatic ls.lim h1
+    split
+    · exact h2
+    · exact h2
+
+/-- `Ctx.cloop` as a whole: bounds, iterations, else-branch. -/
+theorem cloopWith_RK {k : Nat} (run : St → Res) (re : Option (St → Res)) (f : Nat) (ls : CLoopSpec) (s : St)
+    (hrun : ∀ s, SK k s → RK k (run s)) (hre : ElseK k re) (hs : SK k s)
+    (hb : ∀ cnt lim, (loopBounds s.c ls).2 = some (cnt, lim) → ∃ m, dist ls.condOp ls.cntOp cnt lim = some m ∧ m < f) :
+    RK k (cloopWith run re f ls s) := by
+  unfold cloopWith cloopAfter
+  have h0 : SK k ({ s with c := (loopBounds s.c ls).1 } : St) := loopBounds_SKc s.c ls hs
+  cases hbd : (loopBounds s.c ls).2 with
+  | none => exact ok_RK _ h0
+  | some p =>
+    obtain ⟨cnt, lim⟩ := p
+    obtain ⟨m, hd, hm⟩ := hb cnt lim hbd
+    simp only
+    have hl := cloopLoop_SK run hrun ls f cnt lim 0 _ m hd hm h0
+    exact afterLoop_RK _ _ _ hre hl hl
+
+/-- **The counter-loop node.** Whatever the body and the else-branch (good at depth `k`), a counter loop whose bounds
+    let it step towards its limit — `dist` of the bounds is some `m` below the fuel — returns without `outOfFuel`. -/
+theorem cloopNode_RK {k : Nat} (run : St → Res) (re : Option (St → Res)) (f : Nat) (ls : CLoopSpec) (s : St)
+    (hrun : ∀ s, SK k s → RK k (run s)) (hre : ElseK k re) (hs : SK k s)
+    (hb : ∀ (c : Ctx) cnt lim, (loopBounds c ls).2 = some (cnt, lim) → ∃ m, dist ls.condOp ls.cntOp cnt lim = some m ∧ m < f) :
+    RK k (loopNode (cloopWith run re f ls) s) :=
+  loopNode_RK _ s (fun s' hs' => cloopWith_RK run re f ls s' hrun hre hs' (hb s'.c)) hs
+
+
+/-- Literal bounds are what they say, in every context. -/
+theorem loopBounds_literal (c : Ctx) (ls : CLoopSpec) (a b : Int) (h1 : ls.cntStatic = true) (h2 : ls.limStatic = true)
+    (ha : parseIntLit ls.cntInit = some a) (hb : parseIntLit ls.lim = some b) : (loopBounds c ls).2 = some (a, b) := by
+  unfold loopBounds cloopRange
+  simp [h1, h2, ha, hb]
+
+theorem cloopLit_bound (ls : CLoopSpec) (h : cloopLit ls = true) (f : Nat) (hf : cloopNeed ls ≤ f) :
+    ∀ (c : Ctx) cnt lim, (loopBounds c ls).2 = some (cnt, lim) → ∃ m, dist ls.condOp ls.cntOp cnt lim = some m ∧ m < f := by
+  intro c cnt lim hbd
+  unfold cloopLit at h
+  simp only [Bool.and_eq_true] at h
+  obtain ⟨⟨h1, h2⟩, h3⟩ := h
+  cases ha : parseIntLit ls.cntInit with
+  | none => simp [ha] at h3
+  | some a =>
+    cases hb : parseIntLit ls.lim with
+    | none => simp [ha, hb] at h3
+    | some b =>
+      simp only [ha, hb] at h3
+      rw [loopBounds_literal c ls a b h1 h2 ha hb] at hbd
+      simp only [Option.some.injEq, Prod.mk.injEq] at hbd
+      obtain ⟨rfl, rfl⟩ := hbd
+      cases hd : dist ls.condOp ls.cntOp a b with
+      | none => simp [hd] at h3
+      | some m =>
+        refine ⟨m, rfl, ?_⟩
+        unfold cloopNeed at hf
+        simp only [h1, h2, Bool.and_self, if_true, ha, hb, hd] at hf
+        omega
+
 /-! ### Trees with includes -/
 
 mutual
-/-- No counter loop anywhere in the node (includes allowed). -/
+/-- Every counter loop in the node has literal bounds and steps towards its limit (includes allowed). -/
 def lfNode : Node → Bool
   | .cond _ ch => lfSeq ch
   | .condOK _ ch => lfSeq ch
@@ -196,7 +364,7 @@ def lfNode : Node → Bool
   | .case_ _ ch => lfSeq ch
   | .default_ ch => lfSeq ch
   | .rloop _ ch => lfSeq ch
-  | .cloop _ _ => false
+  | .cloop ls ch => cloopLit ls && lfSeq ch
   | .switch _ ch => lfSeq ch
   | _ => true
 def lfSeq : List Node → Bool
@@ -396,7 +564,18 @@ theorem interp_incl (reg : Registry) (R : Nat) (hreg : RegOK reg R) : ∀ f : Na
       | default_ child =>
         rw [writeNode]; rw [needNode] at hf; rw [lfNode] at hp; subst hB
         exact ihS d k child s hp hd (by omega) hs
-      | cloop ls child => rw [lfNode] at hp; cases hp
+      | cloop ls child =>
+        rw [writeNode]
+        simp only
+        rw [needNode] at hf
+        rw [lfNode, Bool.and_eq_true] at hp
+        have hb := loopParts_body_need child
+        subst hB
+        apply cloopNode_RK _ _ _ _ _ _ _ hs
+        · exact cloopLit_bound ls hp.1 f (by omega)
+        · intro st hst
+          exact ihS d k _ st (loopParts_body_lf child hp.2) hd (by omega) hst
+        · exact else_K reg f (d * R) k child hp.2 (fun n s hn hf' hs'' => ihN d k n s hn hd hf' hs'') (by omega)
       | rloop ls child =>
         rw [writeNode]
         simp only
